@@ -121,7 +121,7 @@ fn grammar(max_n: usize) -> Grammar {
     let compounds: Vec<Wrap> = vec![
         Box::new(|b| for_("i", Src::Range(Expr::int(1), Expr::int(2)), b)),
         Box::new(|b| if_(Cond::Truthy(Expr::var("x")), b, Some(vec![text("else")]))),
-        Box::new(|b| Stmt::Case { target: Expr::var("x"), whens: vec![(vec![Expr::s("dx")], false, b)], else_: Some(vec![text("ce")]) }),
+        Box::new(|b| Stmt::Case { target: Expr::var("x"), whens: vec![(vec![Expr::s("dx")], false, b), (vec![Expr::s("zz"), Expr::s("dx")], false, vec![text("w2")])], else_: Some(vec![text("ce")]) }), // the second arm matches too: only the first may run
         Box::new(|b| Stmt::TableRow { var: "i".into(), src: Src::Range(Expr::int(1), Expr::int(3)), cols: Some(Expr::int(2)), limit: None, offset: None, body: b }),
         Box::new(Stmt::IfChanged),
         Box::new(|b| Stmt::Capture("x".into(), b)),
